@@ -119,6 +119,8 @@ Scripts ==
     \cup {<< [op |-> "insert", a |-> "extra", b |-> "", c |-> "", t |-> Int(2), n |-> p] >> : p \in {0, 1, 999}}
     \cup {<< [op |-> "remove", a |-> "f1", b |-> "", c |-> "", t |-> Int(1), n |-> 0] >>}
     \cup {<< [op |-> "rename", a |-> "f2", b |-> "g2", c |-> "", t |-> Int(1), n |-> 0] >>}
+    \* renaming a member that sizes arrays: the arrays follow (f1 in the "@f1" forms, the implicit counters)
+    \cup {<< [op |-> "rename", a |-> x, b |-> "cnt", c |-> "", t |-> Int(1), n |-> 0] >> : x \in {"f1", "f2_len", "f1_len"}}
     \cup {<< [op |-> "static", a |-> "f2", b |-> "", c |-> "", t |-> Int(1), n |-> 4] >>}
     \cup {<< [op |-> "greedy", a |-> "f2", b |-> "", c |-> "", t |-> Int(1), n |-> 0] >>}
     \cup {<< [op |-> "dynamic", a |-> "f2", b |-> "f1", c |-> "", t |-> Int(1), n |-> 0] >>}
